@@ -8,11 +8,11 @@ def add(i, cat, text, ref, note, tech):
     M[i] = dict(cat=cat, text=text, ref=ref, note=note, tech=tech)
 
 add('C12', 'exploration',
-    'Complete Cartesian product of viewBox sizes, target sizes (7 binades x 3 mantissas), 3 viewBox origins and 16 alignment pairs for AspectMeet and AspectSlice, each compared with an exact rational/float64 reference fit plus the structural clauses of the statement (inside/covering, equal in one dimension, alignment).',
+    'Complete Cartesian product of viewBox sizes and target sizes (21 values = 7 binades x 3 mantissas; thorough 48 values over 2^-20..2^20), 3 viewBox origins (MinX != MinY) and 16 alignment pairs for AspectMeet and AspectSlice, plus two extreme families (all dimensions ~2^64 resp. ~2^-80, where products of two dimensions overflow resp. underflow float32), each compared with an exact rational/float64 reference fit plus the structural clauses of the statement (aspect, inside/covering, equal in one dimension, alignment, Size).',
     'DESIGN.md 3/C12', 'float32 arithmetic on linux/amd64; tolerance 2^-18 relative to the target side or result extent per axis',
     'exhaustive product enumeration of a pure function against an exact reference')
 add('C03', 'exploration',
-    'Every decoder input of the bounded byte grammar (all strings of <=2/3 bytes after the magic, every opcode x operand-width combination x payload class x truncation point, all instruction sequences to depth 3/4 over a 30-fragment alphabet, the metadata shape space, every prefix and single-byte substitution of the corpus) is decoded by the real decoder and by an independent reference parser written from the specification; accept/reject and the delivered call list must agree bit for bit.',
+    'Every decoder input of the bounded byte grammar (all strings of <=3 bytes after the magic, thorough <=4 = all 2^32 tails; every opcode x operand-width combination x payload class x repeat count x truncation point; all 16384 two-byte payloads per number kind and for the arc angle; all instruction sequences to depth 3/4 over a 30-fragment alphabet; the metadata shape space; every prefix and every single-byte substitution of all 971 corpus files: 50 M strings quick, 4.4 G thorough) is decoded by the real decoder and by an independent reference parser written from the specification; accept/reject and the delivered call list must agree bit for bit.',
     'DESIGN.md 2.1(B,F), 3/C03', 'trusted: the reference parser /verif/ref (written from spec/iconvg-spec-v0.md); error kinds are not compared',
     'exhaustive enumeration of the input grammar up to a depth, differential against a reference model')
 execfile_extra = os.path.join(ROOT, 'tools', 'manifest_entries.py')
